@@ -36,6 +36,27 @@ type dtoAlias struct {
 type dtoPkg struct {
 	Targets []dtoTarget `json:"targets"`
 	Aliases []dtoAlias  `json:"aliases,omitempty"`
+	// defaults, when set, makes the JSON and YAML renderings express the very same effective
+	// platforms through a package-level default_platforms: targets whose platforms equal the
+	// default omit the key, targets without a restriction carry an explicit empty list
+	defaults []string
+}
+
+func sameSet(a, b []string) bool {
+	if len(a) != len(b) {
+		return false
+	}
+	x, y := append([]string{}, a...), append([]string{}, b...)
+	sort.Strings(x)
+	sort.Strings(y)
+	return strings.Join(x, "\x00") == strings.Join(y, "\x00")
+}
+
+// withDefaults returns the package rendered with default_platforms = d.
+func (p dtoPkg) withDefaults(d []string) dtoPkg {
+	q := p
+	q.defaults = d
+	return q
 }
 
 func jq(s string) string { b, _ := json.Marshal(s); return string(b) }
@@ -59,7 +80,33 @@ func jmap(m map[string]string) string {
 	return "{" + strings.Join(ys, ", ") + "}"
 }
 
-func (p dtoPkg) JSON() string { b, _ := json.MarshalIndent(p, "", "  "); return string(b) + "\n" }
+func (p dtoPkg) JSON() string {
+	if p.defaults == nil {
+		b, _ := json.MarshalIndent(p, "", "  ")
+		return string(b) + "\n"
+	}
+	var ts []map[string]any
+	for _, t := range p.Targets {
+		b, _ := json.Marshal(t)
+		m := map[string]any{}
+		_ = json.Unmarshal(b, &m)
+		delete(m, "platforms")
+		switch {
+		case sameSet(t.Platforms, p.defaults):
+		case len(t.Platforms) == 0:
+			m["platforms"] = []string{}
+		default:
+			m["platforms"] = t.Platforms
+		}
+		ts = append(ts, m)
+	}
+	top := map[string]any{"targets": ts, "default_platforms": p.defaults}
+	if len(p.Aliases) > 0 {
+		top["aliases"] = p.Aliases
+	}
+	b, _ := json.MarshalIndent(top, "", "  ")
+	return string(b) + "\n"
+}
 
 func (p dtoPkg) YAML() string {
 	var sb strings.Builder
@@ -94,9 +141,22 @@ func (p dtoPkg) YAML() string {
 				fmt.Fprintf(&sb, "      %s: %s\n", jq(k), jq(t.Fingerprint[k]))
 			}
 		}
-		lst("platforms", t.Platforms)
+		switch {
+		case p.defaults != nil && sameSet(t.Platforms, p.defaults):
+			// inherits default_platforms
+		case p.defaults != nil && len(t.Platforms) == 0:
+			sb.WriteString("    platforms: []\n")
+		default:
+			lst("platforms", t.Platforms)
+		}
 		if t.Timeout != "" {
 			fmt.Fprintf(&sb, "    timeout: %s\n", jq(t.Timeout))
+		}
+	}
+	if p.defaults != nil {
+		sb.WriteString("default_platforms:\n")
+		for _, x := range p.defaults {
+			fmt.Fprintf(&sb, "  - %s\n", jq(x))
 		}
 	}
 	if len(p.Aliases) > 0 {
@@ -327,10 +387,13 @@ func normalise(out string, dropCommand bool) (map[string]string, error) {
 				continue
 			}
 			v, ok := n[k]
-			if !ok {
+			if !ok || v == nil {
 				continue
 			}
 			if arr, isArr := v.([]any); isArr {
+				if len(arr) == 0 {
+					continue
+				}
 				var ss []string
 				for _, x := range arr {
 					b, _ := json.Marshal(x)
@@ -451,7 +514,7 @@ func RunC16(tier string) int {
 		_ = os.MkdirAll(m.Home, 0755)
 		return m
 	}
-	files := map[string]string{"json": "BUILD.json", "yaml": "BUILD.yaml", "star": "BUILD.star", "star2": "BUILD.star", "make": "Makefile"}
+	files := map[string]string{"json": "BUILD.json", "yaml": "BUILD.yaml", "star": "BUILD.star", "star2": "BUILD.star", "make": "Makefile", "jsond": "BUILD.json", "yamld": "BUILD.yaml"}
 
 	// (1) cross-format agreement
 	nAgree := tierN(tier, 60, 1200)
@@ -471,6 +534,19 @@ func RunC16(tier string) int {
 			fmts = append(fmts, f)
 		}
 		sort.Strings(fmts)
+		// the same effective platforms expressed through a package-level default
+		dflt := rng.Pick(r, [][]string{{"linux/amd64"}, {"linux/amd64", "darwin/arm64"}, {"plan9/mips"}, {"darwin/arm64"}})
+		pd := p.withDefaults(dflt)
+		render["jsond"], render["yamld"] = pd.JSON(), pd.YAML()
+		fmts = append(fmts, "jsond", "yamld")
+		for _, t := range p.Targets {
+			switch {
+			case sameSet(t.Platforms, dflt):
+				run.Count("targets_inheriting_default_platforms", 1)
+			case len(t.Platforms) == 0:
+				run.Count("targets_with_explicit_empty_platforms_under_a_default", 1)
+			}
+		}
 		structured := p.StarlarkStructured(r.Chance(1, 2))
 		render["star2"] = structured["BUILD.star"]
 		fmts = append(fmts, "star2")
